@@ -9,7 +9,7 @@ CFG = {
     "rule": "A real server (127.0.0.1:0) with one paginated endpoint over an in-memory BTreeSet<u64> (scan "
             "parameter order=ascending|descending on the first request, selector {order,last} in the token "
             "afterwards, limit = rqctx.page_limit, ResultsPage::new); the client starts without token and follows "
-            "next_page over HTTP until a page carries none (gives up after |coll|+2 requests or on a non-200 "
+            "next_page over HTTP until a page carries none (gives up after |coll|+2 requests, when more items arrived than the collection holds, or on a non-200 "
             "answer). grid cases: every collection size 0..40 x every client limit 1..42 and absent x both orders "
             "(both tiers). scan cases: sizes {0,1,2,41,98..102,199..201,300,997,9999,10000,10001,20001} (thorough "
             "adds 2500,19999,20000,25000) x limits {absent,1,2,3,99,100,101,9999,10000,10001,2^32-1} x both orders "
